@@ -37,3 +37,77 @@ Example C13_nonvacuous :
   r_flags (transform_attrs E attrs false st0) = 10 /\
   r_dyn (transform_attrs E attrs false st0) = Some [s_ "id"].
 Proof. vm_compute. split; reflexivity. Qed.
+
+(* ---- the slot hint is computed from the source (last clause of C13) ------------------------ *)
+From VJ Require Import Spec.SlotFlag Lemmas.SlotFlagProofs.
+
+(* Lowering an element ORs [dyn el] into every slot flag on the stack - its own (pushed as
+   Stable) and those of the enclosing elements - where [dyn el] says that a file-bound identifier
+   is a child of [el] or of an element nested in [el] by direct JSX nesting.  Nothing else in
+   the lowering writes the stack.  No bound on nesting, attributes or children. *)
+Theorem C13_slot_flags_propagate :
+  forall (E : env) (n : node) (s : st),
+    slot_stack (snd (lower_el E n s))
+    = map (fun b => b || (o_optimize (e_opts E) && dyn E n)) (slot_stack s).
+Proof. exact lower_el_stack. Qed.
+Print Assumptions C13_slot_flags_propagate.
+Check C13_slot_flags_propagate :
+  forall (E : env) (n : node) (s : st),
+    slot_stack (snd (lower_el E n s))
+    = map (fun b => b || (o_optimize (e_opts E) && dyn E n)) (slot_stack s).
+
+(* the flag an element's children argument is built with is [dyn el] ... *)
+Theorem C13_slot_flag_is_dyn :
+  forall (E : env) (n : node) (s : st),
+    is_elem n = true ->
+    fst (pop_flag E (at_children E n s)) = o_optimize (e_opts E) && dyn E n.
+Proof. exact flag_is_dyn. Qed.
+Print Assumptions C13_slot_flag_is_dyn.
+
+(* ... and the output of [lower_el] carries that children argument: [build_children] is the body
+   of transform_children after the pop, with the popped flag as a parameter; every `_` it emits
+   is [hint_prop flag] *)
+Theorem C13_children_argument_uses_dyn :
+  forall (E : env) nm ats sc ta ch cl (s : st),
+    let n := JsxE nm ats sc ta ch cl in
+    exists callee tag attrs elems slots hints s',
+      let call := mk_call callee
+                    ([tag; attrs;
+                      fst (build_children E (o_optimize (e_opts E) && dyn E n) elems (is_component E nm) slots s')]
+                     ++ hints) in
+      fst (lower_el E n s) = call
+      \/ exists wd ds, fst (lower_el E n s) = mk_call wd [call; Arr ds].
+Proof. exact lower_el_children_arg. Qed.
+Print Assumptions C13_children_argument_uses_dyn.
+
+Theorem C13_finish_children_is_pop_then_build :
+  forall (E : env) elems ic slots s,
+    finish_children E elems ic slots s
+    = build_children E (fst (pop_flag E s)) elems ic slots (snd (pop_flag E s)).
+Proof. exact finish_children_split. Qed.
+Print Assumptions C13_finish_children_is_pop_then_build.
+
+(* the property's wording - a bound identifier among the direct children, or among those of
+   elements nested by direct JSX nesting - implies the computed flag: such a slot carries 2 *)
+Theorem C13_bound_child_makes_slot_dynamic :
+  forall (E : env) (n : node),
+    o_optimize (e_opts E) = true -> dyn_text E n = true ->
+    hint_prop E (o_optimize (e_opts E) && dyn E n) = [KV (IdName (s_ "_")) (mk_num 2)].
+Proof.
+  intros E n Ho Hd. rewrite Ho, (dyn_text_dyn E n Hd). unfold hint_prop. rewrite Ho. reflexivity.
+Qed.
+Print Assumptions C13_bound_child_makes_slot_dynamic.
+
+(* non-vacuity: <A><div><B>{item}</B></div>{x}</A> with item bound: B, and A through the native
+   element between them, are dynamic; the lowering really emits `_: 2` twice *)
+Example C13_slot_flag_nonvacuous :
+  let E := {| e_opts := {| o_transform_on := false; o_optimize := true; o_merge_props := true;
+                           o_object_slots := false; o_pragma := None; o_resolve_type := false; o_npat := 0 |};
+              e_unres := 1; e_matches := []; e_html := [s_ "div"]; e_svg := []; e_comments := [] |} in
+  let item := Ident (s_ "item") 2 false in
+  let b := JsxE (Ident (s_ "B") 2 false) [] false nnull [JExprC item] nnull in
+  let d := JsxE (Ident (s_ "div") 1 false) [] false nnull [b] nnull in
+  let a := JsxE (Ident (s_ "A") 2 false) [] false nnull [d; JExprC (Ident (s_ "x") 1 false)] nnull in
+  dyn_text E a = true /\ dyn E a = true
+  /\ slot_stack (snd (lower_el E a (set_slot_stack [false] st0))) = [true].
+Proof. vm_compute. repeat split; reflexivity. Qed.
